@@ -7,7 +7,13 @@ pub mod runtime {
 pub mod task {
     use std::future::Future;
 
+    #[cfg(not(feature = "verif-hooks"))]
     pub use tokio::task::{JoinError, JoinHandle, spawn, spawn_blocking};
+
+    #[cfg(feature = "verif-hooks")]
+    pub use super::verif::spawn;
+    #[cfg(feature = "verif-hooks")]
+    pub use tokio::task::{JoinError, JoinHandle, spawn_blocking};
 
     /// Runs a future to completion.
     #[track_caller]
@@ -16,6 +22,9 @@ pub mod task {
         rt.block_on(future)
     }
 }
+
+#[cfg(feature = "verif-hooks")]
+pub mod verif;
 
 pub mod time {
     pub use tokio::time::{Sleep, Timeout, sleep, timeout};
